@@ -525,6 +525,7 @@ func (s *scheduler) fireTimerBefore(horizon int64) bool {
 	if best.deadline > s.px.clock {
 		s.px.clock = best.deadline
 	}
+	s.checkHorizon()
 	s.fire(best)
 	return true
 }
